@@ -448,27 +448,35 @@ func (ev *Evaluator) bitWalk(u *Unrolled, s *ast.ForStmt) (its []iteration, hand
 			delete(ev.Env, vObj)
 		}
 	}()
-	for i := 0; i < w; i++ {
-		rem := SRem{I: i, W: w, Form: remSelf}
+	stepOK := func(rem SRem) bool {
 		ev.Env[vObj] = rem
 		r := ev.Eval(step.Rhs[0])
-		ok := false
 		switch step.Tok {
 		case token.AND_ASSIGN:
-			if x, isRem := r.(SRem); isRem && x.I == i && (x.Form == remDec || x.Form == remCleared) {
-				ok = true
+			if x, isRem := r.(SRem); isRem && x.I == rem.I && !rem.High && (x.Form == remDec || x.Form == remCleared) {
+				return true
 			}
 		case token.AND_NOT_ASSIGN, token.XOR_ASSIGN, token.SUB_ASSIGN:
 			if c, isConst := r.(SConst); isConst && c.V.Kind() == constant.Int && constant.Compare(c.V, token.EQL, rem.lowBit().V) {
-				ok = true
+				return true
 			}
 		case token.ASSIGN:
-			if x, isRem := r.(SRem); isRem && x.I == i && x.Form == remCleared {
-				ok = true
+			if x, isRem := r.(SRem); isRem && x.I == rem.I && x.Form == remCleared {
+				return true
 			}
 		}
-		if !ok {
-			u.Why = "the step `" + stmtString(step) + "` is not recognised as clearing exactly the lowest set bit of the variable of the walk"
+		return false
+	}
+	// lowest bit first, or (bits.Len / bits.LeadingZeros) highest bit first
+	high := !stepOK(SRem{I: 0, W: w, Form: remSelf}) && stepOK(SRem{I: 0, W: w, Form: remSelf, High: true})
+	for n := 0; n < w; n++ {
+		i := n
+		if high {
+			i = w - 1 - n
+		}
+		rem := SRem{I: i, W: w, Form: remSelf, High: high}
+		if !stepOK(rem) {
+			u.Why = "the step `" + stmtString(step) + "` is not recognised as clearing exactly the lowest (or the highest) set bit of the variable of the walk"
 			return nil, true
 		}
 		bit := rem.lowBit().V
@@ -487,6 +495,7 @@ func (ev *Evaluator) bitWalk(u *Unrolled, s *ast.ForStmt) (its []iteration, hand
 		its = append(its, iteration{env: map[types.Object]Sym{vObj: rem}, bind: map[types.Object]Val{}, label: label,
 			test: &MaskTest{Mask: wordBit, Set: true}})
 	}
+	u.Descending = high
 	u.N = len(its)
 	return its, true
 }
@@ -912,6 +921,13 @@ func (ev *Evaluator) wordEscapesInto(call *ast.CallExpr) string {
 	}
 	if !ev.handsWord(call) {
 		return ""
+	}
+	// a predicate (declared, or a function value that resolves statically) used
+	// as a condition is seen through by Eval
+	if tv, ok := ev.Info.Types[call]; ok && tv.Type != nil {
+		if b, isBasic := tv.Type.Underlying().(*types.Basic); isBasic && b.Kind() == types.Bool && HasWord(ev.Eval(call)) {
+			return ""
+		}
 	}
 	if dynamic {
 		return "the flag word is handed to a function value / interface method (`" + types.ExprString(call.Fun) + "`) the analysis does not follow"
